@@ -134,6 +134,21 @@ class Unit:
             out.append('typedef struct %s %s;\n' % (lower.mangle_core(q), lower.mangle_core(q)))
         if self.lits:
             out.append('enum {\n' + ''.join('    %s = %d, /* %r */\n' % (k, v[0], v[1][:60]) for k, v in sorted(self.lits.items())) + '};\n')
+            # text-based aliases (LITX_<sanitised text>) where the sanitised text is unambiguous, so sidecars need not spell the hash
+            al = {}
+            for k, v in self.lits.items():
+                a = 'LITX_' + re.sub(r'[^A-Za-z0-9]', '_', v[1])[:48]
+                al.setdefault(a, []).append(k)
+            for a, ks in sorted(al.items()):
+                if len(ks) == 1 and a != ks[0]: out.append('#define %s %s\n' % (a, ks[0]))
+        # literals a sidecar names but the current code no longer contains (an edited / removed literal): a fallback identity that no
+        # string of the code carries, so the unit still compiles and the contract clause about that literal simply fails to hold
+        used = set(re.findall(r'\b(LITX?_\w+)\b', side)) - set(self.lits)
+        defined_alias = set(a for a in re.findall(r'#define (LITX_\w+) ', ''.join(out)))
+        import zlib as _z
+        for nm in sorted(used - defined_alias):
+            if re.search(r'#\s*define\s+%s\b' % re.escape(nm), side): continue
+            out.append('#ifndef %s\n#define %s (-%d) /* literal not present in the current code */\n#endif\n' % (nm, nm, 100000 + (_z.crc32(nm.encode()) & 0xffffff)))
         out.append('#line 1 "%s"\n' % self.path)
         out.append(self.part1)
         out.append('#line 1 "generated-structs"\n')
@@ -150,6 +165,8 @@ class Unit:
                 out.append('#define LOOPKIND_%s_%d_%s 1\n' % (cname, lp['ordinal'], kind))
             for v in sorted(fi.locals):
                 if re.fullmatch(r'[A-Za-z_][A-Za-z0-9_]*', v): out.append('#define HASVAR_%s_%s 1\n' % (cname, v))
+        if getattr(L, 'lambda_ids', None):
+            out.append('enum { ' + ', '.join('LAMBDA_%s = %d' % (nm, i + 1) for i, nm in enumerate(L.lambda_ids)) + ' };\n')
         out.append('#line %d "%s"\n' % (self.p2_line, self.path))
         out.append(self.part2)
         out.append('#line 1 "generated-code"\n')
